@@ -13,6 +13,12 @@ type SkelOptions struct {
 	// scanning a whole parenthesised list (for the cancellation check: the shift
 	// counter then lives in the session and is advanced by lookahead shifts).
 	Lookahead bool
+	// NestedLookahead (implies Lookahead) additionally puts a lookahead predicate inside the list the
+	// outer predicate scans, so that predicates are evaluated while another lookahead is running
+	// (needs recursiveLookaheads = true).
+	NestedLookahead bool
+	// TrailingNull always includes the statement form that ends with a nullable nonterminal.
+	TrailingNull bool
 	// NoErr generates no error alternatives at all.
 	NoErr bool
 }
@@ -58,7 +64,10 @@ func RandSkeleton(r *rand.Rand, o SkelOptions) *Grammar {
 		itemsNullable = false
 		b.feature("items:left-nonempty")
 	default: // right-recursive nullable list
-		b.rule(items, b.nt(item), b.nt(items))
+		ru := b.rule(items, b.nt(item), b.nt(items))
+		if r.Intn(3) == 0 {
+			ru.Deco = map[int]string{2: ".afterItems"}
+		}
 		b.rule(items)
 		b.rule(file, b.nt(items))
 		b.feature("items:right-nullable")
@@ -128,19 +137,29 @@ func RandSkeleton(r *rand.Rand, o SkelOptions) *Grammar {
 		}
 		b.rule(item, b.word(), b.nt(x), semi)
 	})
-	stmtKinds = append(stmtKinds, func() { // statement that ends with a nullable nonterminal (trailing whitespace/comments matter for its range)
+	trailingNull := func() { // statement that ends with a nullable nonterminal (trailing whitespace/comments matter for its range)
 		tail := b.nonterm(fmt.Sprintf("End%d", len(b.g.Nonterms)))
 		b.rule(tail, b.word(), id)
 		b.rule(tail)
-		b.rule(item, b.word(), id, b.nt(tail))
+		ru := b.rule(item, b.word(), id, b.nt(tail))
 		b.feature("trailing-nullable")
-	})
+		if r.Intn(3) > 0 { // ... followed by a state marker
+			ru.Deco = map[int]string{3: ".afterEnd"}
+			b.feature("trailing-nullable+marker")
+		}
+	}
+	if !o.TrailingNull {
+		stmtKinds = append(stmtKinds, trailingNull)
+	}
 	perm := r.Perm(len(stmtKinds))
 	nk := 2 + r.Intn(4)
 	for _, k := range perm[:nk] {
 		stmtKinds[k]()
 	}
-	if o.Lookahead {
+	if o.TrailingNull {
+		trailingNull()
+	}
+	if o.Lookahead || o.NestedLookahead {
 		// 'q' (?= LA) '(' Args ')' 'x' ';'  |  'q' (?= !LA) '(' Args ')' 'y' ';'
 		la := b.nonterm("LA")
 		q, x, y := b.word(), b.word(), b.word()
@@ -150,6 +169,17 @@ func RandSkeleton(r *rand.Rand, o SkelOptions) *Grammar {
 		r2 := b.rule(item, q, lp, b.nt(args), rp, y, semi)
 		r2.Deco = map[int]string{1: "(?= !LA)"}
 		b.feature("lookahead")
+		if o.NestedLookahead {
+			// Arg: 'm' (?= LB) '(' Args ')' 'u' | 'm' (?= !LB) '(' Args ')' 'v'   -- evaluated inside LA
+			lb := b.nonterm("LB")
+			m, u, v := b.word(), b.word(), b.word()
+			b.rule(lb, lp, b.nt(args), rp, u)
+			r3 := b.rule(arg, m, lp, b.nt(args), rp, u)
+			r3.Deco = map[int]string{1: "(?= LB)"}
+			r4 := b.rule(arg, m, lp, b.nt(args), rp, v)
+			r4.Deco = map[int]string{1: "(?= !LB)"}
+			b.feature("nested-lookahead")
+		}
 	}
 	// statement-level error alternatives
 	if !o.NoErr {
